@@ -19,6 +19,7 @@ RULE = (
     "(type, event) pairs that failed on the pinned tree (orderly EOF on the six fair-queue sockets — D12; REQ, and write "
     "errors in REQ/ROUTER/REP — D13) were repaired; every pair is now required to hold."
     ' Family pub-backlog-then-end: a subscriber stops reading, output for it is buffered, then its connection ends on the read side (EOF, reset, malformed frame): both halves of the connection are released once the socket has observed it — nothing lingers to flush a backlog to a peer that is gone.'
+    ' Family returning-identity (ROUTER, DEALER, PUSH, PULL, REP): a peer with a configured identity goes away and registers again under it — before or after the socket has observed the end: everything held for the FIRST connection is released (both halves), nothing sent afterwards is written to it, messages addressed to the identity / sent in rotation reach live connections.'
 )
 ASSUMPTIONS = ["descriptor release is observed through the pipe halves' Drop flags not modelled",
                "PUB notices a dead subscriber through its reader task; its write-side detection (only at the high-water mark) is outside the statement"]
@@ -293,8 +294,71 @@ def pub_backlog_then_end(t, event, n):
     return c
 
 
+def returning_identity_case(t, pt, observed, n):
+    """a peer with a configured identity goes away and REGISTERS AGAIN under the same identity — before the socket has
+    observed the end of its first connection, or after: from then on the FIRST connection is history — everything held
+    for it is released (both halves), and whatever the socket sends to that identity / in rotation goes to the live one"""
+    sc = wg.Script()
+    sc.sock(1, t)
+    sc.attach(1, 1, pt, b"worker-1")
+    sc.attach(1, 3, pt, b"other")
+    sc.add("wire 1", "wire 3", "eof 1")
+    if observed and t in wg.CAN_RECV:
+        f = sc.fut()
+        sc.add(f"recv {f} 1", f"poll {f}", f"drop {f}")
+    sc.attach(1, 2, pt, b"worker-1")
+    sc.add("wire 2")
+    if t in wg.CAN_RECV:
+        f = sc.fut()
+        sc.add(f"recv {f} 1", f"poll {f}", f"drop {f}")
+    sc.add("drain", "halves 1")
+    sends = []
+    if t in ("ROUTER", "DEALER", "PUSH"):
+        for j in range(3):
+            m = [b"worker-1", b"job-%d" % j] if t == "ROUTER" else [b"item-%d" % j]
+            f = sc.fut()
+            sc.add(f"send {f} 1 {wg.mtok(m)}", f"poll {f}", f"drop {f}", "wire 1", "wire 2", "wire 3")
+            sends.append(m[1:] if t == "ROUTER" else m)
+    sc.add("halves 1", "halves 2")
+    c = sc.case(f"{t}:returning-identity-{'observed' if observed else 'unobserved'}#{n}", ["returning-identity"])
+    c.expect = ("returning", t, sends)
+    return c
+
+
+def returning_identity_oracle(case, lines):
+    res = list(zip(case.ops, lines[1:]))
+    _, t, sends = case.expect
+    h1 = [l for op, l in res if op == "halves 1"]
+    h2 = [l for op, l in res if op == "halves 2"][-1]
+    if h1[-1] != "halves r=1 w=1":
+        return (f"the identity's FIRST connection has ended and the identity has registered again on a new connection, yet the socket "
+                f"still holds part of the old one: {h1[-1]} (r / w = read / write half released)")
+    if h2 != ("halves r=1 w=0" if t == "PUSH" else "halves r=0 w=0"):     # (PUSH never reads: it keeps the write half only)
+        return f"the live connection of the returning identity was not kept whole: {h2}"
+    w1 = "".join(l.split(" ", 1)[1] for op, l in res if op == "wire 1" and l != "wire .")[0:]
+    w2 = "".join(l.split(" ", 1)[1] for op, l in res if op == "wire 2" and l != "wire .")
+    w3 = "".join(l.split(" ", 1)[1] for op, l in res if op == "wire 3" and l != "wire .")
+    for m in sends:
+        if zmtp.message(m).hex() in w1:
+            return f"a message sent after the identity had registered again was written to its ENDED connection: {wg.show_frames(m)}"
+    if t == "ROUTER":
+        for m in sends:
+            if zmtp.message(m).hex() not in w2:
+                return f"the message {wg.show_frames(m)} addressed to the returning identity did not reach its live connection"
+    if t in ("DEALER", "PUSH") and sends:
+        got = sum(1 for m in sends if zmtp.message(m).hex() in w2 or zmtp.message(m).hex() in w3)
+        if got != len(sends):
+            return f"only {got} of {len(sends)} messages sent in rotation reached a live connection"
+    return None
+
+
 def cases(tier, rng):
     out = gen.corpus(ID)
+    n = 0
+    for t, pt in (("ROUTER", "DEALER"), ("DEALER", "ROUTER"), ("PUSH", "PULL"), ("PULL", "PUSH"), ("REP", "REQ")):
+        for observed in (False, True):
+            out.append(returning_identity_case(t, pt, observed, 970000 + n))
+            n += 1
     n = 0
     for t in ("PUB", "XPUB"):
         for event in ("eof", "rderr", "protoerr"):
@@ -338,6 +402,8 @@ def oracle(case, lines):
             return f"panic/abort in `{op}`"
     if not case.expect:
         return None
+    if case.expect[0] == "returning":
+        return returning_identity_oracle(case, lines)
     if case.expect[0] == "backlogend":
         res = list(zip(case.ops, lines[1:]))
         hv = [l for op, l in res if op == "halves 1"]
